@@ -224,6 +224,11 @@ where
         let _ = f.write_at(&blank, 0);
     }
     let slot_counter = AtomicU64::new(0);
+    // stuck-case watcher state: per worker (current case, thread CPU time at its start, CPU clock id)
+    let watch: Vec<(AtomicU64, AtomicU64, std::sync::atomic::AtomicI64)> = (0..cfg.threads.max(1))
+        .map(|_| (AtomicU64::new(u64::MAX), AtomicU64::new(0), std::sync::atomic::AtomicI64::new(i64::MIN)))
+        .collect();
+    let finished = AtomicU64::new(0);
     let next = AtomicU64::new(0);
     let stop = AtomicBool::new(false);
     let merged = Mutex::new(Local::new());
@@ -239,10 +244,46 @@ where
         cfg.threads.max(1)
     };
     std::thread::scope(|s| {
+        if cfg.only_case.is_none() {
+            // A case that burns more than STUCK_CPU_S seconds of its worker's CPU time never
+            // returns for practical purposes: leave the process with exit code 86 so that the
+            // driver re-runs the in-flight cases alone (crash triage). CPU time, not wall time:
+            // the verdict does not depend on the load of the machine.
+            s.spawn(|| {
+                let budget_ns = std::env::var("VERIF_STUCK_CPU_S").ok().and_then(|v| v.parse::<u64>().ok()).unwrap_or(150) * 1_000_000_000;
+                let mut suspect: Vec<u64> = vec![u64::MAX; watch.len()];
+                while finished.load(Ordering::SeqCst) < threads as u64 {
+                    std::thread::sleep(Duration::from_millis(500));
+                    for (i, w) in watch.iter().enumerate() {
+                        let idx = w.0.load(Ordering::SeqCst);
+                        let clk = w.2.load(Ordering::SeqCst);
+                        if idx == u64::MAX || clk == i64::MIN {
+                            suspect[i] = u64::MAX;
+                            continue;
+                        }
+                        let used = thread_cpu_ns(clk as libc::clockid_t).saturating_sub(w.1.load(Ordering::SeqCst));
+                        if used > budget_ns && w.0.load(Ordering::SeqCst) == idx {
+                            if suspect[i] == idx {
+                                eprintln!("[stuck] stream {} case {} has used {} s of CPU time without returning", stream, idx, used / 1_000_000_000);
+                                std::process::exit(86);
+                            }
+                            suspect[i] = idx;
+                        } else {
+                            suspect[i] = u64::MAX;
+                        }
+                    }
+                }
+            });
+        }
         for _ in 0..threads {
             s.spawn(|| {
                 use std::os::unix::fs::FileExt;
                 let slot = slot_counter.fetch_add(1, Ordering::Relaxed);
+                let mut clk: libc::clockid_t = 0;
+                let have_clk = unsafe { libc::pthread_getcpuclockid(libc::pthread_self(), &mut clk) } == 0;
+                if have_clk {
+                    watch[slot as usize].2.store(clk as i64, Ordering::SeqCst);
+                }
                 let mut local = Local::new();
                 loop {
                     if stop.load(Ordering::Relaxed) {
@@ -255,6 +296,11 @@ where
                     for idx in base..(base + 16).min(hi) {
                         if let Some(f) = &progress {
                             let _ = f.write_at(&idx.to_le_bytes(), 8 * slot);
+                        }
+                        if have_clk {
+                            watch[slot as usize].0.store(u64::MAX, Ordering::SeqCst);
+                            watch[slot as usize].1.store(thread_cpu_ns(clk), Ordering::SeqCst);
+                            watch[slot as usize].0.store(idx, Ordering::SeqCst);
                         }
                         let mut rng = Rng::derive(cfg.seed, stream, idx);
                         let r = catch_unwind(AssertUnwindSafe(|| f(&mut local, &mut rng, idx)));
@@ -278,7 +324,10 @@ where
                 if let Some(f) = &progress {
                     let _ = f.write_at(&u64::MAX.to_le_bytes(), 8 * slot);
                 }
+                watch[slot as usize].0.store(u64::MAX, Ordering::SeqCst);
+                watch[slot as usize].2.store(i64::MIN, Ordering::SeqCst);
                 merged.lock().unwrap().merge(local);
+                finished.fetch_add(1, Ordering::SeqCst);
             });
         }
     });
@@ -286,6 +335,14 @@ where
         let _ = std::fs::remove_file(&progress_path);
     }
     merged.into_inner().unwrap()
+}
+
+fn thread_cpu_ns(clock: libc::clockid_t) -> u64 {
+    let mut ts = libc::timespec { tv_sec: 0, tv_nsec: 0 };
+    if unsafe { libc::clock_gettime(clock, &mut ts) } != 0 {
+        return 0;
+    }
+    ts.tv_sec as u64 * 1_000_000_000 + ts.tv_nsec as u64
 }
 
 /// Final result document consumed by the `check` driver.
